@@ -2,6 +2,7 @@ import Nstd.Common.Basic
 import Nstd.Path.Model
 import Nstd.Path.FsLib
 import Nstd.Path.FsSpec
+import Nstd.Path.FsMore
 /-
   Line protocol of the Path area (property C19).  Path ops are stateless:
      dir <hex> | base <hex> <hexext> | stem <hex> <hexext> | ext <hex> | simp <hex> |
@@ -85,22 +86,31 @@ def purgeOk (b : Bytes) : Bool :=
 def parseBool (s : String) : Option Bool :=
   if s == "0" then some false else if s == "1" then some true else none
 
-/-- script of one File object: `w<hex>` write, `s<whence>:<offset>` seek, `r` readAll, `z` size;
-    parsing stops at the first malformed item (second component) -/
-def parseScript : List String → List FileOp × Bool
+/-- script of one File object: `w<hex>` write(String), `v` write("VW", 2) answering the count, `s<whence>:<offset>` seek,
+    `r` readAll, `p<n>` read(buffer, n), `z` size; `i` isOpen, `o` open again (refused), `f` flush have constant
+    answers on an open File; parsing stops at the first malformed item (second component) -/
+def parseScript : List String → List (Option FileOp × String) × Bool
   | [] => ([], true)
   | it :: rest =>
-    let c := it.take 1
+    let c := (it.take 1).toString
     let arg := (it.drop 1).toString
-    let op : Option FileOp :=
-      if c == "w" then (fromHex arg).map FileOp.write
-      else if c == "r" && arg == "" then some .readAll
-      else if c == "z" && arg == "" then some .size
+    let op : Option (Option FileOp × String) :=
+      if c == "w" then (fromHex arg).map (fun d => (some (FileOp.write d), "w"))
+      else if c == "v" && arg == "" then some (some (FileOp.write [86, 87]), "v")
+      else if c == "r" && arg == "" then some (some .readAll, "r")
+      else if c == "z" && arg == "" then some (some .size, "z")
+      else if c == "p" && arg != "" then
+        match arg.toNat? with
+        | some n => if n ≤ 4096 then some (some (.read n), "p") else none
+        | none => none
+      else if c == "i" && arg == "" then some (none, " i=1")
+      else if c == "o" && arg == "" then some (none, " o=0")
+      else if c == "f" && arg == "" then some (none, " f=1")
       else if c == "s" then
         match arg.splitOn ":" with
         | [w, o] =>
           match (if w == "0" then some Whence.set else if w == "1" then some Whence.cur else if w == "2" then some Whence.end_ else none), o.toInt? with
-          | some wh, some off => some (.seek off wh)
+          | some wh, some off => some (some (.seek off wh), "s")
           | _, _ => none
         | _ => none
       else none
@@ -108,14 +118,27 @@ def parseScript : List String → List FileOp × Bool
     | none => ([], false)
     | some op => let (ops, ok) := parseScript rest; (op :: ops, ok)
 
-def outStr : FileOut → String
-  | .wrote ok => s!" w={b01 ok}"
+def outStr (tag : String) : FileOut → String
+  | .wrote ok => if tag == "v" then (if ok then " v=2" else " v=-1") else s!" w={b01 ok}"
   | .pos (some n) => s!" s={n}"
   | .pos none => " s=-1"
-  | .data (some d) => s!" r={toHex d}"
-  | .data none => " r=fail"
+  | .data (some d) => s!" {if tag == "p" then "p" else "r"}={toHex d}"
+  | .data none => s!" {if tag == "p" then "p" else "r"}=fail"
   | .size (some n) => s!" z={n}"
   | .size none => " z=-1"
+
+/-- the printed answers: the File operations answer what the model computed, the constant items their constant -/
+def mergeOuts : List (Option FileOp × String) → List FileOut → String
+  | [], _ => ""
+  | (none, t) :: rest, outs => t ++ mergeOuts rest outs
+  | (some _, t) :: rest, o :: outs => outStr t o ++ mergeOuts rest outs
+  | (some _, _) :: _, [] => " ?"
+
+/-- the `d_type` fault of the run: 0 = none, 1 = every entry DT_UNKNOWN, 2 = names ending in an odd byte -/
+def unkOf (mode : Nat) : Bytes → Bool := fun p =>
+  mode == 1 || (mode == 2 && (match p.getLast? with | some c => c % 2 == 1 | none => false))
+
+def noDotDot (b : Bytes) : Bool := (kchunks b).all (fun c => c != dotdot)
 
 def fsOp (fs : Fs) (ws : List String) : Option (Fs × String) :=
   match ws with
@@ -166,7 +189,7 @@ def fsOp (fs : Fs) (ws : List String) : Option (Fs × String) :=
       pure (fsApply fs (.copy a b f m), s!"{b01 ok} fired={b01 fired}")
   | ["fsexists", p] => do
       let p ← fromHex p; if !okFsPath p then none
-      pure (fs, s!"{b01 (fileExists fs p)} {b01 (dirExists fs p)}")
+      pure (fs, s!"{b01 (fileExists fs p)} {b01 (dirExists fs p)} {b01 (fileTime fs p)}")
   | ["fsreadall", p] => do
       let p ← fromHex p; if !okFsPath p then none
       pure (fs, match fileReadAllPath fs p with | some d => s!"1 {toHex d}" | none => "0")
@@ -177,11 +200,31 @@ def fsOp (fs : Fs) (ws : List String) : Option (Fs × String) :=
         | none => "ls=0")
   | ["fsfile", p, flags, script] => do
       let p ← fromHex p; let flags ← flags.toNat?; if !okFsPath p || flags ≥ 16 then none
-      let (ops, ok) := parseScript (script.splitOn ",")
+      let (items, ok) := parseScript (script.splitOn ",")
+      let ops := items.filterMap (·.1)
       let fs' := fsApply fs (.file p flags ops)
       match (fileSession fs p flags ops).2 with
       | none => pure (fs', "open=0")
-      | some outs => pure (fs', "open=1" ++ String.join (outs.map outStr) ++ (if ok then "" else " bad"))
+      | some outs => pure (fs', "open=1" ++ mergeOuts items outs ++ (if ok then "" else " bad") ++ " closed=1")
+  | ["fslsp", p, pat, dO, m] => do
+      let p ← fromHex p; let pat ← fromHex pat; let dO ← parseBool dO; let m ← m.toNat?
+      if !okFsPath p || !okStr pat || !patOk pat || m > 2 then none
+      pure (fs, match dirListPat fs p pat dO (unkOf m) with
+        | some l => " ".intercalate ("ls=1" :: l.map (fun (n, d) => s!"{toHex n}:{b01 d}")) ++ " again=0 afterclose=0"
+        | none => "ls=0")
+  | ["fsrmdiru", p, r, m] => do
+      let p ← fromHex p; let r ← parseBool r; let m ← m.toNat?
+      if !(okFsPath p) || hitsCwd fs p || m > 2 then none
+      let res := dirUnlinkTopU (unkOf m) fs p r
+      pure (res.1, b01 res.2)
+  | ["fscd", d, p] => do
+      let d ← fromHex d; let p ← fromHex p
+      if !(okFsPath d && okFsPath p && noDotDot p) then none
+      let wd' := dirChange fs cwd d
+      let wd := wd'.getD cwd
+      let a := getAbsolutePathAt wd p
+      pure (fs, s!"cd={b01 wd'.isSome} cwd={toHex (cwdString wd)} abs={toHex a} e={b01 (fileExistsAt fs wd p)} d={b01 (dirExistsAt fs wd p)} ea={b01 (fileExistsAt fs wd a)} da={b01 (dirExistsAt fs wd a)}")
+  | ["fsconst", _] => pure (fs, "tmp=2f746d70 home=1")
   | _ => none
 
 structure St where
